@@ -475,6 +475,13 @@ func c01Run(c *engine.Ctx, cs c01Case) (field, msg string) {
 			return "sibling-get-" + f, "sibling key: " + m
 		}
 	}
+	if !cs.kind.IsSingle() {
+		// a request that is refused in between (the bucket is not empty) is no part of the object's history
+		if r := w.Do(drv.Req{Method: "DELETE", Path: "/aaa"}); r.Status < 400 || r.Panic != "" {
+			return "bucket-delete-accepted", "DELETE of the bucket holding the object answered " + r.Short()
+		}
+		evals++
+	}
 	want := &model.Obj{Body: body, Meta: wantMeta}
 	for i := 0; i < 2; i++ {
 		v := w.Get("aaa", cs.key)
